@@ -424,10 +424,13 @@ package risc
 //@   ensures len(result) <= len(s)
 //@   assigns nothing
 
+//@ abstract func strContains(s string, sub string) bool
+
 //@ func strings.Index
 //@   mode int
 //@   trusted
 //@   ensures -1 <= result && result < len(s) && (result >= 0 ==> result + len(substr) <= len(s))
+//@   ensures (result == -1) == !strContains(s, substr)
 //@   assigns nothing
 
 //@ func strings.IndexRune
@@ -435,6 +438,12 @@ package risc
 //@   trusted
 //@   ensures -1 <= result && result < len(s)
 //@   ensures result >= 0 ==> int32(s[result]) == r
+//@   assigns nothing
+
+//@ func strings.CutSuffix
+//@   mode int
+//@   trusted
+//@   ensures len(before) <= len(s)
 //@   assigns nothing
 
 //@ func strings.ToLower
@@ -501,7 +510,9 @@ package risc
 //@   ensures result2 != nil ==> result == 0 && result1 == 0
 //@   assigns nothing
 
-// Parse: total (no index/slice panic on any input); pc counts instructions
+// Parse: total (no index/slice panic on any input); only a line without a
+// space is taken as a label (an instruction line with a trailing comment is
+// never dropped); pc counts instructions
 // (pc == 4 * #instructions at every line); a label is stored with the pc of
 // the next instruction; on error the zero Application is returned.
 //@ func Parse
@@ -509,7 +520,7 @@ package risc
 //@   nooverflow pc
 //@   ensures result1 != nil ==> result.Instructions == nil && result.Labels == nil
 //@   ensures result1 == nil ==> result.Labels != nil && (forall name string :: name in result.Labels ==> 0 <= result.Labels[name] && result.Labels[name] <= 4 * len(result.Instructions) && result.Labels[name] % 4 == 0)
-//@   writes labels: v == pc
+//@   writes labels: v == pc && !strContains(line, " ")
 //@   assigns nothing
 //@   loop 0: invariant pc == 4 * len(instructions) && labels != nil && fresh(labels) && (cap(instructions) == 0 || fresh(instructions))
 //@   loop 0: invariant forall name string :: name in labels ==> 0 <= labels[name] && labels[name] <= pc && labels[name] % 4 == 0
